@@ -1,6 +1,5 @@
 import GoCrypt.Proofs.Argon2SchedLinkFill
-import GoCrypt.Props.C04
-
+import GoCrypt.Props.C04Core
 /-!
 # C09 (link) — the schedule-independence theorems are about the MODEL of `argon2crypto`
 
